@@ -15,7 +15,11 @@ RULE = ('T2: formatparam (generic and cookie tspecials), bytes(element) after co
 	'quoted / unquoted / RFC 5987 extended values in several charsets, RFC 2231 continuations (ordered, shuffled, gaps, signs, leading zeros, underscores), '
 	'duplicates, stray separators, unbalanced quotes, encoded-word-like octets; for the round trip every value of up to 4 characters over {a, ", ;, backslash}, double quotes at both '
 	'edges / one edge / doubled / behind backslashes / next to separators around a list of inner texts, in all element classes and in list fields. Oracle: compose -> parse gives back the value and exactly the parameter names and '
-	'values, alone and as a joined list read through Headers.elements. non-trivial = distinct (kind, input)')
+	'values, alone and as a joined list read through Headers.elements. Wave 4 (oracle): percent / RFC 5987 / RFC 2231 look-alikes, normalisation forms, degenerate values and limit lengths '
+	'(values, names, element value, number of parameters) in every class and in lists; one element object serialised, changed through every public way and serialised again, compared '
+	'with the data assigned and with a fresh element (seq); the same data written by an independent serialiser in token / quoted / extended form (alt); every registered '
+	'generic-grammar class under its field name in several letter cases (reg); every known charset in an extended parameter (charset); everything parsed / serialised twice. '
+	'non-trivial = distinct (kind, input)')
 EXHAUSTIVE = {'quick': False, 'thorough': False}
 TRUSTED = ['harness/tables/element.py, headers_api.py, percent.py (T1: tspecials classes, pinned regex texts, extended-parameter framing, cookie attribute names, charset alias '
 	'classification, safe set and escape width of Percent.quote, D15 guard probe)',
@@ -333,6 +337,242 @@ def gen_wire(rng, cls):
 	return s
 
 
+# ------------------------------------------------------------------ strengthening (wave 4): classes of inputs rather than single inputs
+TCHARS = set("!#$%&'*+-.^_`|~0123456789abcdefghijklmnopqrstuvwxyzABCDEFGHIJKLMNOPQRSTUVWXYZ")
+# texts that look like the encodings the library itself uses on the wire (percent escapes, RFC 5987 framing, RFC 2231 numbering, quoted strings)
+PCT_PIECES = ['%', '%%', '%2', '%20', '%20', '%25', '%2520', '%41', '%61', '%C3', '%c3%a9', '%C3%A9', '%E2%82%AC', '%zz', '%0', '%00', '%7F', '%80', '%FF', '%2B', '+', ' ', ' ', 'é', '€', 'ä',
+	'A', 'a', '0', ':', "'", "''", "utf-8''", "UTF-8'en'", '*', '*0', '*0*', '.pdf', 'März', '100%', '\U0001f600', 'Å', 'é']
+
+
+def gen_pct_text(rng):
+	t = ''.join(rng.choice(PCT_PIECES) for _ in range(rng.randint(2, 6)))
+	if rng.random() < 0.75 and all(ord(ch) < 128 for ch in t):
+		i = rng.randint(0, len(t))
+		t = t[:i] + rng.choice(['é', '€', 'ä ', 'März', '\U0001f600']) + t[i:]
+	if rng.random() < 0.5:
+		# the same escape once more, further right (and once more in front)
+		esc = rng.choice(['%20', '%25', '%C3', '%41', '%E2%82%AC', '%2520', ' ', '%'])
+		t = rng.choice(['', esc]) + t + rng.choice([esc, esc + 'x', ' ' + esc])
+	return t.strip(WS)
+
+
+def safe_text(t, cookie):
+	"""outside every class of the known findings (D1, D16, D17, D33): such a value must come back, alone and in a list"""
+	if '=?' in t or t != t.strip(WS) or any(0xd800 <= ord(ch) <= 0xdfff for ch in t):
+		return False
+	if all(ord(ch) < 128 for ch in t):
+		return not (d33_value(t, True) if cookie else d17_value(t, True)) if t else True
+	return not any(ord(ch) < 0x10 for ch in t)
+
+
+def gen_class_text(rng, cookie=False, safe=False, maxlen=300):
+	"""a parameter value from the classes: normalisation forms / look-alikes, percent look-alikes, degenerate, limit lengths, quote-dense, generic"""
+	from harness.props.C08 import NORM, DEGENERATE, LIMITS_SMALL, ALPHABETS, text_of_len
+	for _ in range(200):
+		r = rng.random()
+		if r < 0.22:
+			t = ''.join(rng.choice(NORM) for _ in range(rng.randint(1, 3)))
+		elif r < 0.32:
+			t = rng.choice(['', 'x', 'a b', '€', 'caf']) + rng.choice(NORM) + rng.choice(['', 'y', ', z', '; q=1', 'é', '.pdf'])
+		elif r < 0.52:
+			t = gen_pct_text(rng)
+		elif r < 0.62:
+			t = rng.choice(DEGENERATE)
+		elif r < 0.72:
+			t = text_of_len(rng, rng.choice([n for n in LIMITS_SMALL if n <= maxlen]), rng.choice(sorted(ALPHABETS)))
+		elif r < 0.82:
+			t = gen_qtext(rng)
+		else:
+			t = gen_text(rng, 1, 7, 'prop')
+		t = t.strip(WS)
+		if not safe or safe_text(t, cookie):
+			return t
+	return 'x'
+
+
+def _registry_fields():
+	"""field name -> element class for every registered class that uses the generic serialisation and parameter parsing (classes with a grammar of their own -
+	authentication, ranges, Forwarded, CSP - and the cookie classes, which have cases of their own, are left out)"""
+	import httoop  # noqa: F401
+	from httoop.header.element import HEADER, HeaderElement, _AcceptElement, _CookieElement
+	f = lambda cls, m: getattr(getattr(cls, m), '__func__', getattr(cls, m))
+	out = {}
+	for name, cls in sorted(dict.items(HEADER)):
+		if issubclass(cls, _CookieElement):
+			continue
+		if any(f(cls, m) is not f(HeaderElement, m) for m in ('compose', 'parseparams', 'parseparam', 'formatparam', 'split', 'join', '__init__')):
+			continue
+		if f(cls, 'parse') is not f(HeaderElement, 'parse') and not issubclass(cls, _AcceptElement):
+			continue
+		if any(getattr(cls, r).pattern != getattr(HeaderElement, r).pattern for r in ('RE_PARAMS', 'RE_SPLIT', 'RE_TSPECIALS')):
+			continue
+		out[cls.__name__ if isinstance(cls.__name__, str) else name] = cls
+	return out
+
+
+REG_SAMPLES = ['tok', 'attachment', 'gzip', 'text/html', 'example.com', 'Thu, 01 Jan 1970 00:00:00 GMT', '1']
+
+
+def _known_encodings():
+	from httoop.util import KNOWN_ENCODINGS
+	return sorted(KNOWN_ENCODINGS)
+
+
+def _spell(rng, name):
+	return rng.choice([name, name.lower(), name.upper(), name.title(), name.swapcase()])
+
+
+def gen_seq(rng, cls=None):
+	"""one element object that is serialised, changed through a public way and serialised again"""
+	cls = cls or rng.choice(CLASSES)
+	cookie = cls == 'cookie'
+	val = lambda: {'t': gen_class_text(rng, cookie, True, 80)}
+	pnames = [n for n in ['a', 'b', 'filename', 'name', 'foo', 'x-y', 'c1', 'path', 'domain', 'size'] if not (cookie and n in ('path', 'domain'))] + (['path', 'domain', 'max-age'] if cookie else [])
+	params = []
+	for n in rng.sample(pnames, rng.randint(1, 3)):
+		params.append([n, val()])
+	c = {'k': 'seq', 'cls': cls, 'value': gen_value(rng, cls, 'prop').lower() if cls == 'disp' else gen_value(rng, cls, 'prop'), 'cookie': gen_cookie(rng, 'prop'), 'params': params,
+		'via': rng.choice(['built', 'built', 'parsed']), 'setcookie': rng.random() < 0.5}
+	have = [p[0] for p in params]
+	steps = [['ser', rng.choice(['bytes', 'compose', 'str', 'fmt', 'repr', 'cmp'])]]
+	for _ in range(rng.randint(1, 5)):
+		r = rng.random()
+		mut = [n for n in have if n != 'boundary']   # the boundary has a syntax of its own (VALID_BOUNDARY): only changed through its attribute
+		if mut and r < 0.4:
+			steps.append(['set', rng.choice(mut), val(), rng.choice(['b', 't'])])
+		elif r < 0.5:
+			n = rng.choice(pnames)
+			steps.append(['set', n, val(), rng.choice(['b', 't'])])
+			if n not in have:
+				have.append(n)
+		elif have and r < 0.56:
+			n = rng.choice(have)
+			have.remove(n)
+			steps.append([rng.choice(['del', 'pop']), n])
+		elif mut and r < 0.66:
+			ns = rng.sample(mut, rng.randint(1, len(mut)))
+			steps.append(['update', [[n, val()] for n in ns]])
+		elif r < 0.7:
+			n = rng.choice(pnames)
+			steps.append(['setdefault', n, val()])
+			if n not in have:
+				have.append(n)
+		elif mut and r < 0.76:
+			have = list(mut)
+			steps.append(['newparams', [[n, val()] for n in have]])
+		elif r < 0.8:
+			have = []
+			steps.append(['clear'])
+		elif r < 0.9 and cls == 'ctype':
+			a = rng.choice(['charset', 'version', 'boundary', 'subtype', 'type'])
+			t = {'charset': rng.choice(['utf-8', 'ISO-8859-1', 'us-ascii', gen_class_text(rng, False, True, 40)]), 'version': rng.choice(['1', '1.1', 'x y']),
+				'boundary': rng.choice(['abc', 'a b', '----=_Part_1', "a'b", 'x' * 70]), 'subtype': rng.choice(['html', 'x+json', 'plain']), 'type': rng.choice(['text', 'application'])}[a]
+			if a in ('type', 'subtype') and '/' not in c['value']:
+				continue
+			steps.append(['attr', a, t])
+			if a in ('charset', 'version', 'boundary') and a not in have:
+				have.append(a)
+		elif r < 0.9 and cookie:
+			steps.append(['cookie'] + gen_cookie(rng, 'prop'))
+		elif r < 0.9 and cls == 'generic':
+			steps.append(['value', gen_value(rng, cls, 'prop')])
+		else:
+			steps.append(['ser', rng.choice(['bytes', 'compose', 'str', 'fmt'])])
+			continue
+		if rng.random() < 0.7:
+			steps.append(['ser', rng.choice(['bytes', 'compose', 'str', 'fmt', 'repr', 'cmp'])])
+	if steps[-1][0] != 'ser':
+		steps.append(['ser', 'bytes'])
+	c['steps'] = steps
+	return c
+
+
+def gen_wave4(rng, tier):
+	from harness.props.C08 import NORM, DEGENERATE, LIMITS_SMALL, LIMITS_BIG, ALPHABETS, text_of_len
+	big = tier == 'thorough'
+	one = lambda cls, key, t: {'cls': cls, 'value': 'inline' if cls == 'disp' else ('text/plain' if cls == 'ctype' else 'v'), 'cookie': ['n', 'v'], 'params': [[key, {'t': t}]]}
+	cases = []
+	# (2) normalisation forms and look-alikes, (5) degenerate values: alone, between other text, in every element class and in lists
+	for i, t in enumerate(NORM + [d for d in DEGENERATE if d == d.strip(WS)]):
+		cls = CLASSES[i % 4]
+		cases.append(dict(one(cls, 'filename' if cls == 'disp' else 'a', t), k='rt'))
+		cases.append(dict(one('generic', 'a', 'caf' + t + ' é.pdf'), k='rt'))
+		cases.append({'k': 'rt_list', 'lcls': 'generic', 'elems': [one('generic', 'a', t), one('generic', 'b', t + 'z')]})
+		cases.append(dict(one(cls, 'filename' if cls == 'disp' else 'a', t), k='alt', style=rng.randrange(1 << 30)))
+	# percent look-alikes inside values that travel percent-encoded (and inside those that do not)
+	for _ in range(4000 if big else 350):
+		cls = rng.choice(CLASSES)
+		e = one(cls, rng.choice(['filename', 'a', 'name']), gen_pct_text(rng))
+		if rng.random() < 0.3:
+			e['params'].append(['b', {'t': gen_pct_text(rng)}])
+		cases.append(dict(e, k='rt'))
+	for t in ['Ergebnis%20März 2024.pdf', '50%3A é: x', '%C3 é', '%E2%82%AC = €', '%25 é %', '%2525 é %25 %', 'é%C3%A9', '%c3%a9 é', '100% é %41A', '%20%20 ä  ']:
+		cases.append(dict(one('disp', 'filename', t.strip(WS)), k='rt'))
+		cases.append(dict(one('generic', 'a', t.strip(WS)), k='alt', style=rng.randrange(1 << 30)))
+	# (3) lengths at and around the limits: parameter values in every alphabet, parameter names, the element value, the number of parameters
+	for n in LIMITS_SMALL + LIMITS_BIG:
+		for alpha in sorted(ALPHABETS):
+			if n > 9000 and not (big and alpha in ('ascii', 'bmp')):
+				continue
+			if n > 1100 and alpha not in ('ascii', 'asciisp', 'bmp') and not big:
+				continue
+			t = text_of_len(rng, n, alpha)
+			if alpha == 'asciisp':
+				t = t.replace('"', 'q')   # an odd number of double quotes is the known D17 class
+			cls = rng.choice(['generic', 'disp', 'ctype', 'cookie']) if alpha != 'asciisp' else rng.choice(['generic', 'disp', 'ctype'])
+			e = dict(one(cls, 'filename' if cls == 'disp' else 'a', t), k='rt')
+			if n > 300:
+				e['nocoq'] = True
+			cases.append(e)
+			if n <= 1100:
+				cases.append({'k': 'rt_list', 'lcls': 'generic', 'elems': [one('generic', 'a', t), one('generic', 'b', 'y z'), one('generic', 'c1', t[:n // 2].strip(WS) or 'x')], 'nocoq': n > 300})
+	for n in LIMITS_SMALL + [1023, 1024, 4096]:
+		nm = ''.join('abcdxyz019-_.'[(i * 5) % 13] for i in range(n))
+		cases.append(dict(one('generic', nm, 'x y'), k='rt', nocoq=n > 300))
+		cases.append(dict(one('generic', 'a', 'x'), k='rt', value=''.join(TOKCH[(i * 7) % len(TOKCH)] for i in range(n)), nocoq=n > 300))
+	for n in [2, 11, 12, 16, 17, 75, 76, 255, 256]:
+		e = {'cls': 'generic', 'value': 'v', 'cookie': ['n', 'v'], 'params': [['p%d' % i, {'t': gen_class_text(rng, False, True, 30)}] for i in range(n)], 'k': 'rt', 'nocoq': n > 20}
+		cases.append(e)
+		cases.append({'k': 'rt_list', 'lcls': 'generic', 'nocoq': n > 20, 'elems': [one('generic', 'a', gen_class_text(rng, False, True, 30)) for i in range(n)]})
+	# random members of the classes in every element class, alone and in lists; the same data written by another sender
+	for _ in range(5000 if big else 450):
+		cls = rng.choice(CLASSES)
+		e = gen_elem(rng, cls, domain='prop')
+		e['params'] = [p for p in e['params'] if p[0] != 'boundary'] or [['a', None]]
+		for p in e['params']:
+			if p is e['params'][0] or rng.random() < 0.5:
+				p[1] = {'t': gen_class_text(rng, cls == 'cookie')}
+		cases.append(dict(e, k='rt'))
+	for _ in range(6000 if big else 500):
+		cls = rng.choice(CLASSES)
+		e = gen_elem(rng, cls, domain='prop')
+		e['params'] = [p for p in e['params'] if p[0] != 'boundary' and p[0].lower() not in ('path', 'domain', 'expires', 'max-age', 'httponly', 'secure')] or [['a', None]]
+		for p in e['params']:
+			if p is e['params'][0] or rng.random() < 0.5:
+				p[1] = {'t': gen_class_text(rng, cls == 'cookie')}
+		cases.append(dict(e, k='alt', style=rng.randrange(1 << 30)))
+	for _ in range(3000 if big else 250):
+		lcls = rng.choice(['generic', 'generic', 'setcookie'])
+		els = []
+		for _ in range(rng.randint(1, 4)):
+			e = gen_elem(rng, 'generic' if lcls == 'generic' else 'cookie', domain='prop')
+			e['params'] = [p for p in e['params'] if p[0] not in ('a', 'expires')] + [['a', {'t': gen_class_text(rng, lcls != 'generic')}]]
+			els.append(e)
+		cases.append({'k': 'rt_list', 'lcls': lcls, 'elems': els})
+	# (1) one object used more than once and changed between the uses
+	for _ in range(9000 if big else 700):
+		cases.append(gen_seq(rng))
+	# (4) every registered element class with the generic grammar, under its field name in several letter cases; every charset the parser knows
+	for field in sorted(_registry_fields()):
+		for _ in range(3 if big else 2):
+			ps = [[n, {'t': gen_class_text(rng, False, True, 80)}] for n in rng.sample(['a', 'b', 'filename', 'name', 'foo', 'x-y', 'c1'], rng.randint(1, 3))]
+			cases.append({'k': 'reg', 'field': _spell(rng, field), 'read': _spell(rng, field), 'params': ps})
+	for enc in _known_encodings():
+		cases.append({'k': 'charset', 'enc': enc, 't': rng.choice(['aé', 'März 2024', '€ 5', 'x']), 'style': rng.randrange(1 << 30)})
+		cases.append({'k': 'charset', 'enc': _spell(rng, enc), 't': rng.choice(['café; 100%', 'é', 'abc def']), 'style': rng.randrange(1 << 30)})
+	return cases
+
+
 def gen_cases(rng, tier):
 	big = tier == 'thorough'
 	cases = []
@@ -375,6 +615,7 @@ def gen_cases(rng, tier):
 		cases.append({'k': 'rt_list', 'lcls': lcls, 'elems': els})
 	# last, so that the cases above are the same as before for a given seed
 	cases.extend(quote_cases(rng, big))
+	cases.extend(gen_wave4(rng, tier))
 	return cases
 
 
@@ -438,6 +679,127 @@ def _parse(cls, raw):
 		return {'err': _exc(exc)}
 
 
+def _fresh(e, cls):
+	"""a new element built through the constructor from what the object holds now"""
+	I = _impl()
+	params = dict((bytes(k), v) for k, v in e.params.items())
+	if cls in ('cookie', 'setcookie'):
+		return I[cls](e.cookie_name, e.cookie_value, params)
+	return I[cls](e.value, params)
+
+
+def _serialise(e, how):
+	"""the ways an element gets serialised; the octets are always taken with bytes() afterwards"""
+	if how == 'compose':
+		e.compose()
+	elif how == 'str':
+		str(e)
+	elif how == 'fmt':
+		'{}'.format(e), '%s' % (e,)
+	elif how == 'repr':
+		repr(e)
+	elif how == 'cmp':
+		try:
+			e < e, e == e, sorted([e, e])
+		except Exception:
+			pass
+	return bytes(e)
+
+
+def _seq(c):
+	I = _impl()
+	cls = c['cls']
+	if cls == 'cookie' and c.get('setcookie'):
+		cls = 'setcookie'
+	e = _build(c, cls if cls in ('cookie', 'setcookie') else 'cookie')
+	if c['via'] == 'parsed':
+		e = I[cls].parse(bytes(e))
+	key = lambda n, kind='b': n.encode('utf-8') if kind == 'b' else n
+	sers = []
+	for st in c['steps']:
+		op = st[0]
+		if op == 'ser':
+			out = _serialise(e, st[1])
+			again = bytes(e)
+			try:
+				fresh = bytes(_fresh(e, cls)).hex()
+			except Exception as exc:
+				fresh = {'err': _exc(exc)}
+			sers.append({'out': out.hex(), 'again': again.hex(), 'fresh': fresh, 'state': _elem_obs(e, cls), 'back': _parse(cls, out)})
+		elif op == 'set':
+			e.params[key(st[1], st[3])] = _pv(st[2])
+		elif op == 'del':
+			del e.params[key(st[1])]
+		elif op == 'pop':
+			e.params.pop(key(st[1], 't'))
+		elif op == 'update':
+			e.params.update(dict((key(n, 'bt'[i % 2]), _pv(v)) for i, (n, v) in enumerate(st[1])))
+		elif op == 'setdefault':
+			e.params.setdefault(key(st[1], 't'), _pv(st[2]))
+		elif op == 'newparams':
+			e.params = type(e.params)(dict((key(n), _pv(v)) for n, v in st[1]))
+		elif op == 'clear':
+			e.params.clear()
+		elif op == 'attr':
+			setattr(e, st[1], st[2])
+		elif op == 'value':
+			e.value = st[1]
+		elif op == 'cookie':
+			e.cookie_name, e.cookie_value = st[1], st[2]
+		else:
+			raise ValueError(op)
+	return {'sers': sers}
+
+
+def _hexup(b, rng, style):
+	return (b'%%%02X' if style == 0 or (style == 2 and rng.random() < 0.5) else b'%%%02x') % b
+
+
+def alt_wire(c, rng):
+	"""the element as another sender writes it - an independent serialiser: token, quoted-string (backslash in front of double quote and backslash) or RFC 5987
+	extended value (always two hex digits, either letter case, more octets escaped than necessary, utf-8 or iso-8859-1, with or without a language), parameter
+	names in another letter case, optional whitespace around the separators"""
+	cookie = c['cls'] == 'cookie'
+	out = ('%s=%s' % tuple(c['cookie']) if cookie else c['value']).encode('latin-1')
+	for name, v in c['params']:
+		pv = _pv(v)
+		t = '' if pv is None else (pv.decode('latin-1') if isinstance(pv, bytes) else pv)
+		nm = name if cookie else ''.join(rng.choice([ch.lower(), ch.upper()]) for ch in name)
+		forms = ['ext']
+		if t and all(ch in TCHARS for ch in t):
+			forms += ['token', 'token'] + ([] if cookie else ['quoted'])
+		elif not cookie and t and all(0x20 <= ord(ch) <= 0x7e for ch in t):
+			forms += ['quoted', 'quoted']
+		elif cookie and t and all(0x21 <= ord(ch) <= 0x7e and ch not in ';,"' for ch in t):
+			forms += ['token']
+		if not t:
+			forms = ['bare', 'empty'] + ([] if cookie else ['emptyq'])
+		form = rng.choice(forms)
+		sep = rng.choice([b'; ', b'; ', b';', b' ; ', b' ;', b';\t'])
+		eq = rng.choice([b'=', b'=', b'=', b' = ', b'= ', b' =']) if not cookie else b'='
+		if form == 'bare':
+			atom = nm.encode()
+		elif form == 'empty':
+			atom = nm.encode() + eq
+		elif form == 'emptyq':
+			atom = nm.encode() + eq + b'""'
+		elif form == 'token':
+			atom = nm.encode() + eq + t.encode('ascii')
+		elif form == 'quoted':
+			atom = nm.encode() + eq + b'"' + t.encode('latin-1').replace(b'\\', b'\\\\').replace(b'"', b'\\"') + b'"'
+		else:
+			try:
+				data, cs = (t.encode('latin-1'), rng.choice([b'iso-8859-1', b'ISO-8859-1', b'latin1'])) if rng.random() < 0.3 else (t.encode('utf-8'), rng.choice([b'utf-8', b'UTF-8', b'utf8', b'Utf-8']))
+			except UnicodeEncodeError:
+				data, cs = t.encode('utf-8'), b'utf-8'
+			style = rng.randrange(3)
+			over = rng.random()
+			body = b''.join(bytes([b]) if (chr(b) in TCHARS and chr(b) not in "%'*" and rng.random() >= over * 0.3) else _hexup(b, rng, style) for b in data)
+			atom = nm.encode() + b'*' + eq + cs + b"'" + rng.choice([b'', b'', b'en', b'de-DE']) + b"'" + body
+		out += sep + atom
+	return out + rng.choice([b'', b'', b' ', b';', b'; '])
+
+
 def observe(c):
 	I = _impl()
 	k = c['k']
@@ -460,7 +822,67 @@ def observe(c):
 			o['td'] = td
 			o['back'] = _parse(c['cls'], b)
 			o['built'] = _elem_obs(e, c['cls'])
+			# used again: the same object serialised a second time, the same octets parsed a second time, a second object from the same data
+			o['again'] = [bytes(e) == b, _parse(c['cls'], b) == o['back'], bytes(_build(c)) == b, _elem_obs(e, c['cls']) == o['built']]
 		return o
+	if k == 'seq':
+		try:
+			return _seq(c)
+		except Exception as exc:
+			return {'err': _exc(exc)}
+	if k == 'alt':
+		import random
+		wire = alt_wire(c, random.Random(c['style']))
+		o = {'out': wire.hex(), 'back': _parse(c['cls'], wire)}
+		o['again'] = _parse(c['cls'], wire) == o['back']
+		return o
+	if k == 'charset':
+		import random
+		rng = random.Random(c['style'])
+		t = c['t']
+		try:
+			data = t.encode(c['enc'])
+		except UnicodeEncodeError:
+			t = 'x yz'   # the charset has none of the accented letters: plain text
+			data = t.encode(c['enc'])
+		except LookupError as exc:
+			return {'skip': type(exc).__name__}
+		wire = b"v; a*=" + c['enc'].encode('ascii') + b"''" + b''.join(_hexup(b, rng, 2) for b in data) + b'; b=y'
+		return {'out': wire.hex(), 'back': _parse('generic', wire), 't': t}
+	if k == 'reg':
+		from httoop.header.element import HEADER
+		cls = HEADER[c['field']]
+		params = dict((n.encode('utf-8'), _pv(v)) for n, v in c['params'])
+		e = None
+		for sample in REG_SAMPLES:
+			try:
+				e = cls(sample, dict(params))
+				break
+			except Exception:
+				continue
+		if e is None:
+			return {'skip': 'no sample value accepted'}
+		if not isinstance(e.value, str):
+			# excluded input class (reported, clean tree): the date-valued classes (If-Modified-Since, If-Unmodified-Since, Last-Modified) replace .value by a Date
+			# object in sanitize() and bytes(element) then raises AttributeError ('Date' object has no attribute 'encode'): they cannot be serialised at all
+			return {'skip': 'value is not text: %s' % type(e.value).__name__}
+		try:
+			wire = bytes(e)
+			o = {'out': wire.hex(), 'sample': sample, 'built': _elem_obs(e, 'generic')}
+			try:
+				o['back'] = _elem_obs(cls.parse(wire), 'generic')
+			except Exception as exc:
+				o['back'] = {'err': _exc(exc)}
+			h = I['Headers']()
+			h[c['field']] = wire
+			try:
+				o['via'] = [_elem_obs(x, 'generic') for x in h.elements(c['read'])]
+			except Exception as exc:
+				o['via'] = {'err': _exc(exc)}
+			o['again'] = bytes(e) == wire
+			return o
+		except Exception as exc:
+			return {'err': _exc(exc)}
 	if k == 'parse':
 		raw = bytes.fromhex(c['s'])
 		td = {}
@@ -469,6 +891,8 @@ def observe(c):
 		if cls == 'cookie' and c.get('set'):
 			cls = 'setcookie'
 		o = _parse(cls, raw)
+		again = _parse(cls, raw)
+		o['again'] = again == dict((a, b) for a, b in o.items())
 		o['td'] = td
 		return o
 	if k == 'parselist':
@@ -579,6 +1003,8 @@ def coq_case(c, o):
 			return 'CBad'
 		out = 'None' if o.get('err') == 'unicode' else ohex(o['out'])
 		return 'CFormat %s %s %s %s' % (B(c['cookie']), X(c['name'].encode('utf-8')), cpval(c['v']), out)
+	if c.get('nocoq') or k in ('seq', 'alt', 'charset', 'reg'):
+		return None
 	if k in ('compose', 'rt'):
 		if c['cls'] == 'ctype' and _bytes_boundary(c):
 			return None
@@ -641,10 +1067,54 @@ def oracle(c, o):
 		return 'unexpected exception: %s' % (json.dumps(o)[:300],)
 	if k == 'parse' and str(o.get('err', '')).startswith('escape'):
 		return 'unexpected exception: %s' % (o['err'],)
+	if 'skip' in o:
+		return None
+	if k == 'parse' and o.get('again') is False:
+		return 'parsing the same octets a second time gives another result (state kept between uses): %s' % c['s']
 	if k == 'rt':
 		if 'err' in o:
 			return None if o['err'] in ('invalid', 'unicode') and not _in_domain(c) else 'element in the property domain cannot be composed: %s' % o['err']
-		return _cmp_elem(c, o['built'], o['back'], 'single element')
+		f = _cmp_elem(c, o['built'], o['back'], 'single element')
+		if f:
+			return f
+		if 'again' in o and o['again'] != [True, True, True, True]:
+			return 'single element used twice: [second bytes() equal, second parse equal, second object from the same data equal, object unchanged by bytes()] = %r (wire %s)' % (o['again'], o['out'][:400])
+		return None
+	if k == 'alt':
+		if o.get('again') is False:
+			return 'parsing the same octets a second time gives another result (state kept between uses): %s' % o['out'][:400]
+		built = {'value': _u8(c['value']), 'params': []}
+		if c['cls'] == 'cookie':
+			built = {'value': _u8('%s=%s' % tuple(c['cookie'])), 'cookie': [_u8(c['cookie'][0]), _u8(c['cookie'][1])], 'params': []}
+		if c['cls'] == 'disp':
+			built['value'] = _u8(c['value'].lower())
+		f = _cmp_elem(c, built, o['back'], 'single element written by another sender (token / quoted-string / extended value, other letter case and whitespace)')
+		return f + ' (wire %s)' % o['out'][:600] if f else None
+	if k == 'charset':
+		want = {'value': _u8('v'), 'params': [[b'a'.hex(), _u8(o['t'])], [b'b'.hex(), _u8('y')]]}
+		if o['back'] != want:
+			return 'extended parameter in the registered charset %r is not decoded to the text that was encoded: wire %s parsed %s' % (c['enc'], o['out'], json.dumps(o['back'])[:300])
+		return None
+	if k == 'reg':
+		if 'err' in o:
+			return 'registered element class %s: composing raised %s' % (c['field'], o['err'])
+		cc = {'cls': 'generic', 'params': c['params']}
+		f = _cmp_elem(cc, o['built'], o['back'], 'element of the registered class %s' % c['field'])
+		if f:
+			return f + ' (wire %s)' % o['out'][:400]
+		via = o['via']
+		if isinstance(via, dict) or len(via) != 1:
+			return 'element of the registered class %s read through Headers.elements(%r): %s (wire %s)' % (c['field'], c['read'], json.dumps(via)[:300], o['out'][:400])
+		f = _cmp_elem(cc, o['built'], via[0], 'element of the registered class %s read through Headers.elements(%r)' % (c['field'], c['read']))
+		if f:
+			return f + ' (wire %s)' % o['out'][:400]
+		if not o['again']:
+			return 'element of the registered class %s serialises differently the second time' % c['field']
+		return None
+	if k == 'seq':
+		if 'err' in o:
+			return 'one element object, changed between two serialisations: raised %s' % o['err']
+		return _seq_oracle(c, o)
 	if k == 'rt_list':
 		if 'err' in o:
 			return 'list in the property domain cannot be composed: %s' % o['err']
@@ -657,6 +1127,63 @@ def oracle(c, o):
 			f = _cmp_elem(e, bu, ba, 'list of elements')
 			if f:
 				return f + ' (wire %s)' % o['wire']
+	return None
+
+
+def _seq_oracle(c, o):
+	"""reference: the data the caller put into the object, step by step; after every serialisation the octets must parse back to exactly that, and must be
+	the octets a fresh object built from the same data gives"""
+	from collections import OrderedDict
+	value, cookie = c['value'], list(c['cookie'])
+	params = OrderedDict()
+	for n, v in c['params']:
+		params[n] = _pv(v) or ''
+	if c['cls'] == 'cookie':
+		value = '%s=%s' % tuple(cookie)
+	sers = iter(o['sers'])
+	for i, st in enumerate(c['steps']):
+		op = st[0]
+		if op == 'set':
+			params[st[1]] = _pv(st[2])
+		elif op in ('del', 'pop'):
+			del params[st[1]]
+		elif op == 'update':
+			for n, v in st[1]:
+				params[n] = _pv(v)
+		elif op == 'setdefault':
+			params.setdefault(st[1], _pv(st[2]))
+		elif op == 'newparams':
+			params = OrderedDict((n, _pv(v)) for n, v in st[1])
+		elif op == 'clear':
+			params = OrderedDict()
+		elif op == 'attr':
+			if st[1] in ('charset', 'version', 'boundary'):
+				params[st[1]] = st[2]
+			elif st[1] == 'type':
+				value = '%s/%s' % (st[2], value.split('/', 1)[1])
+			else:
+				value = '%s/%s' % (value.split('/', 1)[0], st[2])
+		elif op == 'value':
+			value = st[1]
+		elif op == 'cookie':
+			cookie = [st[1], st[2]]
+			value = '%s=%s' % tuple(cookie)
+		elif op == 'ser':
+			ob = next(sers)
+			what = 'one element object, step %d (%s after %s)' % (i, st[1], json.dumps(c['steps'][:i])[:300])
+			built = {'value': _u8(value), 'params': []}
+			if c['cls'] == 'cookie':
+				built['cookie'] = [_u8(cookie[0]), _u8(cookie[1])]
+			cc = {'cls': c['cls'], 'params': [[n, {'t': t}] for n, t in params.items()]}
+			if c['cls'] == 'ctype' and 'boundary' in params:
+				built['params'] = [[b'boundary'.hex(), _u8(params['boundary'])]]
+			f = _cmp_elem(cc, built, ob['back'], what)
+			if f:
+				return f + ' (wire %s)' % ob['out'][:400]
+			if ob['again'] != ob['out']:
+				return '%s: serialised twice in a row the object gives different octets: %s then %s' % (what, ob['out'][:300], ob['again'][:300])
+			if ob['fresh'] != ob['out']:
+				return '%s: the object serialises differently from a fresh element built from the same value and parameters (state kept between uses): %s, fresh %s' % (what, ob['out'][:300], json.dumps(ob['fresh'])[:300])
 	return None
 
 
@@ -718,7 +1245,7 @@ def expires_value(t, swallows):
 
 
 def classify(c, o, fail):
-	if c['k'] not in ('rt', 'rt_list'):
+	if c['k'] not in ('rt', 'rt_list', 'alt'):
 		return None
 	wire = bytes.fromhex(o.get('out') or o.get('wire') or '')
 	if b'=?' in wire:
